@@ -23,10 +23,15 @@ def instances(tier):
                     for bx in ("right-bottom-out", "left-top-out", "inside"):
                         if (hash((op, fmt, al, bx)) % 4) == 0 or op in ("SRC", "OVER"):
                             combos.append((op, fmt, al, bx))
-    for op, fmt, al, bx in combos:
+    combos = [c + (None,) for c in combos]
+    # destination clip reaching beyond the image; near-opaque colour on a wide destination
+    combos += [("SRC", "a8r8g8b8", "0x8000", "right-bottom-out", (1, 0, 6, 5)), ("SRC", "a1", "0xffff", "column", (0, 1, 9, 2))]
+    for op, fmt, al, bx, clip in combos:
         b = BOXES[bx]
-        L.append(Inst("fill_boxes-%s-%s-a%s-%s" % (op, fmt, al[2:] or "0", bx), "C19/fillboxes.c",
-                      {"OP": OPS[op], "FMT": "PIXMAN_" + fmt, "ALPHA": al, "BX1": b[0], "BY1": b[1], "BX2": b[2], "BY2": b[3]},
+        dd = {"OP": OPS[op], "FMT": "PIXMAN_" + fmt, "ALPHA": al, "BX1": b[0], "BY1": b[1], "BX2": b[2], "BY2": b[3]}
+        if clip:
+            dd.update({"HAVE_DCLIP": None, "CX1": clip[0], "CY1": clip[1], "CX2": clip[2], "CY2": clip[3]})
+        L.append(Inst("fill_boxes-%s-%s-a%s-%s%s" % (op, fmt, al[2:] or "0", bx, "-clip" if clip else ""), "C19/fillboxes.c", dd,
                       unwind=12, unwindset=API_UNWINDSET, objbits=12, timeout=900,
                       desc={"what": "pixman_image_fill_boxes vs compositing a solid over the box (both real code) + frame rule; colour (r,g,b) and destination symbolic; box, alpha, operator, format concrete", "box": b}))
     return L
